@@ -54,7 +54,7 @@ def base_ns(draw=None, probes=0, hooks=False):
         **{'size': '⟦SIZE⟧', 'url': '⟦URL-lower⟧', 'upper': '⟦UPPER⟧',
            'lower': '⟦LOWER⟧', 'null': '⟦NULL⟧', 'fmt': '⟦FMT⟧',
            'etc': '⟦ETC⟧', 'missing': '⟦MISSING⟧', 'html_quote': '⟦HQ⟧',
-           'mapping': '⟦MAPPING⟧', 'Title': '⟦Title⟧', 'title': '⟦title⟧',
+           'Title': '⟦Title⟧', 'title': '⟦title⟧',
            'URL': '⟦URL⟧', 'vA': '⟦vA⟧'},
         # names that are proper prefixes of other names of the schema
         v='⟦V⟧', c=0, s=dict(t='list', items=['⟦s⟧']),
